@@ -11,6 +11,8 @@ it yet ("first fill"). Stacks without `Uninit` layers are always fresh (`slice_s
 import Compio.Lemmas.View
 import Compio.Lemmas.ViewVec
 import Compio.Lemmas.ViewOps
+import Compio.Lemmas.ViewAppend
+import Compio.Gen.PoolBufRef
 
 namespace Compio.Props.C10
 open Compio Compio.View
@@ -512,5 +514,147 @@ example :
           (fun v => v.members.map fun m => (m.getRoot.len, m.getRoot.mem))
       | .error _ => none)
       = some [(3, [1, 2, 3]), (4, [4, 0xA, 0xB, 0xC]), (2, [0xD, 0xE])] := by decide
+
+/-! ## 9. Session 3: repeated appending fills through ONE `Uninit` view; pool buffers (`BufferRef`) -/
+
+/-- **Repeated fills of one `Uninit` view append** (the sequence form of "recording n written bytes makes exactly
+those bytes visible where they were written"): for every growable root kind, every `begin ≤ len`, and EVERY list of
+chunks that fits the spare capacity, storing each chunk at the front of `as_uninit()` and recording it with
+`advance(k)` leaves the view in place and the root = fold of `appendRoot` (each chunk right behind the previous). -/
+theorem uninit_append_fills (ds : List Bytes) :
+    ∀ (r : Root) (b : Nat), r.kind ≠ .arr ∧ r.kind ≠ .boxed → b ≤ r.len →
+      r.len + ds.flatten.length ≤ r.cap →
+      (Buf.uninit (.root r) b).fillAdvAll ds = .ok (.uninit (.root (ds.foldl appendRoot r)) b) := by
+  induction ds with
+  | nil => intro r b _ _ _; rfl
+  | cons d rest ih =>
+    intro r b hk hb hl
+    simp only [List.flatten_cons, List.length_append] at hl
+    have hstep := uninit_append_step r b d hk hb (by omega)
+    simp only [Buf.fillAdvAll, hstep, List.foldl_cons]
+    apply ih (appendRoot r d) b hk
+    · simp only [appendRoot]; omega
+    · rw [appendRoot_cap r d (by omega)]
+      simp only [appendRoot]; omega
+
+/-- … and the fold is what the property says: the root ends as `len + Σ|chunk|` with the concatenation of the
+chunks, in order, stored at `len ..`; every byte outside that range is untouched (`splice_other`). -/
+theorem append_fold_is_one_store (ds : List Bytes) :
+    ∀ (r : Root), r.len + ds.flatten.length ≤ r.cap →
+      ds.foldl appendRoot r = { r with len := r.len + ds.flatten.length, mem := splice r.mem r.len ds.flatten } := by
+  induction ds with
+  | nil => intro r _; simp [splice_nil]
+  | cons d rest ih =>
+    intro r hl
+    simp only [List.flatten_cons, List.length_append] at hl
+    have hc := appendRoot_cap r d (by omega)
+    rw [List.foldl_cons, ih (appendRoot r d) (by rw [hc]; simp only [appendRoot]; omega)]
+    simp only [appendRoot, List.flatten_cons, List.length_append]
+    rw [splice_splice _ _ _ _ (by simp only [Root.cap] at *; omega)]
+    simp [Nat.add_assoc]
+
+/-- non-vacuity: the seeded demo — `hello` in a 10-byte `Vec`, `uninit()`, fill `ABC`, fill `xy` ⇒ `helloABCxy` -/
+example :
+    ((Buf.uninit (.root ⟨.vec, 5, [104, 101, 108, 108, 111, 0, 0, 0, 0, 0]⟩) 5).fillAdvAll
+        [[65, 66, 67], [120, 121]]).toOption.map (fun v => (v.getRoot.len, v.getRoot.mem))
+      = some (10, [104, 101, 108, 108, 111, 65, 66, 67, 120, 121]) := by decide
+
+open Compio.Pool in
+/-- **Pool buffers keep `len ≤ cap ≤ full_cap` under every program** of `set_len` / `advance_to` / `advance` /
+`clear` / `set_capacity` / `with_capacity` / fills (refused and panicking calls included: they leave the buffer
+as it was), hence `as_init()` is a prefix of `as_uninit()` and both lie inside the allocation. -/
+theorem pool_program_keeps_len_le_cap (ops : List Pool.Op) :
+    ∀ (p : PBuf), p.WF →
+      (p.run ops).WF ∧ (p.run ops).asInit.1 = (p.run ops).asUninit.1 ∧
+      (p.run ops).asInit.2 ≤ (p.run ops).asUninit.2 ∧
+      (p.run ops).asUninit.1 + (p.run ops).asUninit.2 ≤ (p.run ops).mem.length := by
+  have key : ∀ (ops : List Pool.Op) (p : PBuf), p.WF → (p.run ops).WF := by
+    intro ops
+    induction ops with
+    | nil => intro p h; exact h
+    | cons op rest ih =>
+      intro p h
+      simp only [PBuf.run]
+      cases hs : p.step op with
+      | ok p' => exact ih p' (PBuf.step_wf h hs)
+      | error f => exact ih p h
+  intro p h
+  have hw := key ops p h
+  exact ⟨hw, rfl, hw.le, by simpa [PBuf.asUninit] using hw.cap⟩
+
+open Compio.Pool in
+/-- `set_capacity(c)` / `with_capacity(c)`, `c ≠ 0`: whatever was recorded before (even a broken state), the buffer
+comes out with `len ≤ cap ≤ full_cap`, the capacity is `min(c as u32, full_cap)`, no byte changes and the length
+never grows -/
+theorem pool_set_capacity_clamps (p : PBuf) (c : Nat) (hc : c ≠ 0) :
+    (p.setCap c).len ≤ (p.setCap c).cap ∧ (p.setCap c).cap ≤ p.mem.length ∧
+    (p.setCap c).cap = min (c % 4294967296) p.mem.length ∧ (p.setCap c).mem = p.mem ∧
+    (p.setCap c).len ≤ p.len := by
+  simp only [PBuf.setCap, hc, if_false, PBuf.full, u32Max]
+  exact ⟨Nat.min_le_right _ _, Nat.min_le_right _ _, trivial, trivial, Nat.min_le_left _ _⟩
+
+open Compio.Pool in
+/-- **fill law for pool buffers**: `k ≤ cap` bytes stored at the base and recorded with `advance_to(k)`: the bytes
+are visible at `0..k`, `len = max len k`, capacity and every other byte untouched -/
+theorem pool_fill_law (p : PBuf) (hw : p.WF) (d : Bytes) (hk : d.length ≤ p.cap) (h32 : p.mem.length ≤ 4294967295) :
+    p.fill d = .ok { p with len := max p.len d.length, mem := splice p.mem 0 d } := by
+  have h1 := hw.le
+  have h2 := hw.cap
+  unfold PBuf.fill PBuf.advanceTo PBuf.setLen u32Max
+  simp only [hk, if_true]
+  by_cases hg : d.length > p.len
+  · have : d.length ≤ 4294967295 := by omega
+    simp only [hg, if_true, this]
+    congr 2
+    omega
+  · simp only [hg, if_false]
+    congr 2
+    omega
+
+open Compio.Pool in
+/-- non-vacuity / the seeded sequence: record 3 bytes, then lower the capacity to 1 ⇒ `len = cap = 1` -/
+example :
+    ((⟨0, 4, [1, 2, 3, 4]⟩ : PBuf).run [.fill [7, 8, 9], .setCap 1, .setLen 9, .setCap 4294967296]) = ⟨0, 0, [7, 8, 9, 4]⟩ ∧
+    ((⟨0, 4, [1, 2, 3, 4]⟩ : PBuf).run [.fill [7, 8, 9], .setCap 1]) = ⟨1, 1, [7, 8, 9, 4]⟩ := by decide
+
+/-! ### the same over the bodies regenerated from the source (extractor target `PoolBufRef`) -/
+
+open Compio.Pool Compio.Gen.PoolBufRef in
+/-- the body of `BufferRef::set_capacity` **as regenerated from compio-driver/src/buffer_pool.rs** is the hand model's
+`setCap`, for every buffer state and every argument -/
+theorem gen_pool_set_capacity_is_model (p : PBuf) (c : Nat) : execStmts setCapacityBody p c = .ok (p.setCap c) := by
+  unfold setCapacityBody PBuf.setCap
+  by_cases hc : c = 0 <;> simp [execStmts, hc, PBuf.full]
+
+open Compio.Pool Compio.Gen.PoolBufRef in
+/-- the body of `<BufferRef as SetLen>::set_len` as regenerated from the source is the hand model's `setLen` -/
+theorem gen_pool_set_len_is_model (p : PBuf) (n : Nat) : execStmts setLenBody p n = p.setLen n := by
+  unfold setLenBody PBuf.setLen
+  by_cases hn : n ≤ u32Max
+  · have : n % (u32Max + 1) = n := Nat.mod_eq_of_lt (by omega)
+    simp [execStmts, hn, this]
+  · simp [execStmts, hn]
+
+open Compio.Pool Compio.Gen.PoolBufRef in
+/-- the property-relevant fact directly over the regenerated bodies: from ANY state (also `len > cap`), a
+`set_capacity(c)`, `c ≠ 0`, and every successful `set_len(n)` end with `len ≤ cap`; both keep `cap ≤ full_cap` -/
+theorem gen_pool_bodies_keep_len_le_cap (p : PBuf) (a : Nat) :
+    (a ≠ 0 → ∀ p', execStmts setCapacityBody p a = .ok p' → p'.len ≤ p'.cap ∧ p'.cap ≤ p.mem.length) ∧
+    (∀ p', execStmts setLenBody p a = .ok p' → p'.len ≤ p'.cap ∧ p'.cap = p.cap) := by
+  constructor
+  · intro ha p' h
+    rw [gen_pool_set_capacity_is_model] at h
+    injection h with h
+    subst h
+    have := pool_set_capacity_clamps p a ha
+    exact ⟨this.1, this.2.1⟩
+  · intro p' h
+    rw [gen_pool_set_len_is_model] at h
+    unfold PBuf.setLen at h
+    split at h
+    · injection h with h
+      subst h
+      exact ⟨Nat.min_le_right _ _, rfl⟩
+    · cases h
 
 end Compio.Props.C10
